@@ -198,6 +198,25 @@ func (e *execState) checkQueries(bo *blockObs) {
 				if spelt != bidder {
 					key += "+upper-case-spelling"
 				}
+				if err == nil && bidder == "" && im == "" && len(want) > 1 {
+					// one large page in reverse order: the same bids, last first
+					var resp types.QueryAllBidResponse
+					code, log, qerr := n.grpcQuery("ListBid", &types.QueryAllBidRequest{AuctionId: a.ID, Pagination: &query.PageRequest{Limit: 5000, Reverse: true}}, &resp)
+					st.QueryChecks++
+					var rev []bk
+					for _, b := range resp.Bid {
+						rev = append(rev, bk{b.AuctionId, b.Id})
+					}
+					wantRev := make([]bk, len(want))
+					for i := range want {
+						wantRev[len(want)-1-i] = want[i]
+					}
+					if qerr != nil || code != 0 {
+						e.qv(bo, "query.list_bid", "error", fmt.Sprintf("ListBid(auction=%d, limit 5000, reverse) failed: code=%d %s %v", a.ID, code, log, qerr))
+					} else if fmt.Sprint(rev) != fmt.Sprint(wantRev) {
+						e.qv(bo, "query.list_bid", "reverse+large-limit", fmt.Sprintf("ListBid(auction=%d, limit 5000, reverse) returned %v, the request asks for %v", a.ID, abbreviate(fmt.Sprint(rev)), abbreviate(fmt.Sprint(wantRev))))
+					}
+				}
 				if err != nil {
 					e.qv(bo, "query.list_bid", "error", fmt.Sprintf("ListBid(auction=%d,bidder=%q,is_matched=%q) failed: %v", a.ID, short(bidder), im, err))
 				} else if fmt.Sprint(got) != fmt.Sprint(want) {
